@@ -47,7 +47,7 @@ func sizeStream(prop, focus string, alpha []string) stream {
 			case 3:
 				var ls []string
 				nl := 60 + r.n(60)
-				if r.chance(1, 3) {
+				if (c/8)%2 == 0 {
 					nl = 500 + r.n(1800) // past every plausible fixed-size line table
 				}
 				for i := 0; i < nl; i++ {
